@@ -42,11 +42,16 @@ def chunks (n : Nat) (xs : List Val) : List (List Val) := chunksOf n xs.length x
 def batchMapOp (n : Nat) (f : List Val → List Val) : DynOp Part :=
   withFlags Generated.flags_map_batches (fun rows => (chunks (max n 1) rows).flatMap f)
 
-/-- `BatchMapValuesOp`: values of each chunk through `f`, keys re-attached positionally
-    (the real code asserts `f` preserves the chunk length; the harness only uses such `f`) -/
+/-- re-pair the outputs of one chunk with the chunk's keys, in order. The real code first
+    `assert_eq!(produced.len(), vals.len())` (collection.rs, `BatchMapValuesOp::apply`): a chunk function that
+    changes the chunk length PANICS — the model then yields the single row `err` (rendered `PANIC`). -/
+def rekeyChunk (c out : List Val) : List Val :=
+  if out.length = c.length then List.zipWith (fun r o => .pair r.key o) c out else [.err]
+
+/-- `BatchMapValuesOp`: values of each chunk through `f`, keys re-attached positionally (`rekeyChunk`) -/
 def batchMapValuesOp (n : Nat) (f : List Val → List Val) : DynOp Part :=
   withFlags Generated.flags_map_values_batches (fun rows =>
-    (chunks (max n 1) rows).flatMap (fun c => List.zipWith (fun r o => .pair r.key o) c (f (c.map value))))
+    (chunks (max n 1) rows).flatMap (fun c => rekeyChunk c (f (c.map value))))
 
 /-! ## sources: `VecOpsImpl::split` -/
 
